@@ -8,7 +8,8 @@ EXPLANATION = ("static analysis; round-trip *equality* is a runtime relation and
                "instant x of every interval, unswapped, joined with the requested delimiter; write_snapshots / "
                "read_snapshots / open_file agree on modes, path argument index, encoding and delimiter flow; "
                "parse_snapshots strips comments before splitting, filters short rows before popping u, v, t[, e] in "
-               "that order, converts after the split and hands (t, e) to add_interaction as (instant, vanishing time)")
+               "that order, converts after the split and hands (t, e) to add_interaction as (instant, vanishing time)"
+               ";  the writer is interpreted on k opaque rows into a recording file (k = 0..3 and around every size constant in the writer): the file is the rows in order, one per line, through ONE encoder for the requested encoding; the reader hands the parser the file decoded as one stream before it is split into lines; make_str(x) == str(x) (constant propagation); a converted field that is 0 is also explored as falsy; no state shared between calls (P7)")
 
 
 def run(repo: Repo, tier, rep: Report):
